@@ -95,6 +95,30 @@ UNITS += [
 """),
 ]
 
+UNITS += [
+    Unit(name="actor_writer_status", file=PKR, kind="block", within="fn new<BE: DecryptWriteBackend>(\n        fwh: FileWriterHandle<BE>,",
+         anchor="@closure:scope(|scope|",
+         block_sig="fn actor_writer_status(rx: VPackRx, fwh: FileWriterHandle, finish_tx: VFinishTx, scope: &VScope)",
+         block_tail="",
+         functions=["blob::packer::Actor::new (writer thread: the status reported to Actor::finalize)"],
+         rewrites=[
+             Rw(r"rx\s*\.into_iter\(\)\s*\.readahead_scoped\(scope\)\s*\.map\(\|\(file, index\): \(BytesList, IndexPack\)\| \{.*?\}\)\s*\.readahead_scoped\(scope\)\s*\.map\(\|load\| fwh\.process\(load\)\)\s*\.readahead_scoped\(scope\)", "vwriter_pipeline(rx, &fwh, scope)", regex=True,
+                why="ABSTRACTED: the readahead pipeline rx -> pack id -> FileWriterHandle::process -> the sequence of its results (threads/channels); its closures are units actor_pack_id (C08) and file_writer_process"),
+             Rw("", "RusticResult<IndexPackR> ;; RusticResult<()> ;; ensures q is Ok ==> index is Ok && WRITER_INDEXED(index->Ok_0.id),", kind="tryforeach",
+                why="Iterator::try_for_each -> its definition (loop, stop at the first Err); the closure keeps its body and gets a contract PROVED from it"),
+         ],
+         contract="\n    // (implicit obligation: the status sent is Ok only if every pack handed to the writer was stored and added to the index)\n",
+         loops={1: """
+        invariant_except_break vst is Ok,
+            forall|i: int| 0 <= i < itf.index@ ==> (#[trigger] PIPE_RESULTS()[i]) is Ok && WRITER_INDEXED(PIPE_RESULTS()[i]->Ok_0.id),
+        invariant vrecv@ == PIPE_RESULTS(),
+            forall|x: RusticResult<IndexPackR>| vf.requires((x,)),
+            forall|x: RusticResult<IndexPackR>, q: RusticResult<()>| vf.ensures((x,), q) ==> (q is Ok ==> x is Ok && WRITER_INDEXED(x->Ok_0.id)),
+        ensures vst is Ok ==> every_pack_written_and_indexed(),
+"""},
+         optional_loops=True),
+]
+
 CPY = "crates/core/src/commands/copy.rs"
 UNITS += [
     Unit(name="copy_tail", file=CPY, kind="block", within="pub(crate) fn copy<'a, R: IndexedFull, S: IndexedIds>(",
@@ -252,7 +276,7 @@ UNITS += [
 
 META = {"not_covered": [
     "the statement's quantifier (every prefix of every command's storage operations, any single failing operation): only the ordering of the straight-line parts listed under functions is decided",
-    "thread pipelines: Packer::new (chunk -> pack), Actor / FileWriterHandle composition (process then index), parallel repack in prune, TreeStreamerOnce",
+    "thread pipelines: Packer::new (chunk -> pack; its status = try_for_each(..).and_then(finalize) is not a unit), the readahead pipeline of Actor::new in front of try_for_each (abstracted to the sequence of process results; the status computed from it IS unit actor_writer_status), parallel repack in prune, TreeStreamerOnce",
     "forget, config and key changes (single storage operations); of copy / merge / rewrite only the ordering tails listed under functions; instant-delete + early-delete-index of prune (the documented-unsafe pair the property excludes; every other option set is held to the order)",
     "the repack branch of prune_repository, the header re-reading loop of repair_index and Indexer::finalize itself (elided / stubs)",
 ]}
